@@ -74,4 +74,9 @@ code by the harness (protocol correspondence) -/
 def writerTrace : List String := ["acquire", "open:w+", "write", "close", "release"]
 def readerTrace : List String := ["exists", "acquire", "open:r", "read", "close", "release"]
 
+/-- … and when `acquire` times out (`Choice.timeout`): the writer skips the write, the reader
+returns an empty table; neither touches the file -/
+def writerTimeoutTrace : List String := ["timeout"]
+def readerTimeoutTrace : List String := ["exists", "timeout"]
+
 end MaestroVerif.Lock
